@@ -55,6 +55,10 @@ class Recorder:
         return h.hexdigest()
 
 
+import re as _re
+_SGR = _re.compile('\x1b\\[[0-9;]*m')
+
+
 def canonicalize(events):
     """sort each maximal run of 'Closed ... connection' notices / close notifications (their order is
     a set iteration in the tool) and drop sequence numbers"""
@@ -66,7 +70,7 @@ def canonicalize(events):
             out.extend(sorted(run))
             del run[:]
     for e in events:
-        if e[1] == 'out' and isinstance(e[2], str) and e[2].startswith('Closed '):
+        if e[1] == 'out' and isinstance(e[2], str) and _SGR.sub('', e[2]).startswith('Closed '):
             run.append(('closed', e[2]))
         elif e[1] == 't-close':
             run.append(('t-close', e[2]))
